@@ -124,9 +124,9 @@ func main() {
 			y, m, d := oracle.FromOrdinal(n)
 			win = append(win, ymd{y, m, d})
 		}
-		extraYears := []int64{0, 1, 1900, 2000, 2023, 2025, 9999}
+		extraYears := []int64{0, 1, 1900, 2000, 2023, 2025, 9999, -1, 2, 4, 100, 400, 1582, 1999, 2001, 2024}
 		if !r.Quick() {
-			extraYears = append(extraYears, -1, 2, 4, 100, 400, 1582, 1999, 2001, 2024)
+			extraYears = append(extraYears, 1600, 1700, 1800, 2100, 2400, 9998, 1234, 3000)
 		}
 		for _, y := range extraYears {
 			for m := 1; m <= 12; m++ {
